@@ -85,6 +85,12 @@ def run(tier):
     from .c16 import clear_and_create, Ctx as _TableCtx
     from .c07 import RuleView
     clear_and_create(RuleView(rep, {'R16.clear': 'R09.7', 'R16.create': 'R09.7'}), _TableCtx(prog))
+    # the RepeatBand enumerator is reset through the session table: the tick that finds the table empty (after the Reset's
+    # session_table_clear) puts it back to Quiescent with both deadlines cleared - at once, so that a Discover arriving before
+    # the next tick starts a round exactly as on a freshly started responder
+    rep.rule('R09.8', 'a tick that finds the session table empty returns the enumerator to Quiescent with both deadlines cleared, whatever state it was in (obligation R12.d)', floor=3)
+    from .c12 import decide as tick_decide
+    tick_decide(RuleView(rep, {'R12.d': 'R09.8'}), prog)
     info = recovery(rep, prog, 'R09')
     rep.analysed.update(info)
     return finish(rep, 'proof',
